@@ -1515,6 +1515,28 @@ impl ValueStr {
     }
 }
 
+/// Clones `value`, which belongs to `owner`, so that it can be stored in a mutable cell created by
+/// `cell_thread`. A cell that is part of a module's value has been moved to the global heap
+/// together with the module (`in_global_heap`) and must only hold values of the global heap: the
+/// collections of a thread do not trace objects of older generations so a value stored in
+/// `cell_thread`'s own heap would be freed while the cell still refers to it.
+pub(crate) fn deep_clone_into_cell<'t>(
+    in_global_heap: bool,
+    cell_thread: &'t Thread,
+    owner: &Thread,
+    value: &Value,
+) -> Result<crate::thread::RootedValue<&'t Thread>> {
+    use crate::thread::ThreadInternal;
+    if in_global_heap {
+        let mut gc = cell_thread.global_env().gc.lock().unwrap();
+        let mut cloner = Cloner::new(cell_thread, &mut gc);
+        let value = cloner.deep_clone(value)?;
+        Ok(cell_thread.root_value(value))
+    } else {
+        cell_thread.deep_clone_value(owner, value)
+    }
+}
+
 pub struct Cloner<'gc> {
     visited: FnvMap<*const (), ValueRepr>,
     thread: &'gc Thread,
